@@ -200,8 +200,50 @@ def run(ck, F):
         ('get_decltype(Expr)', 'ipr::impl::type_factory::get_decltype(const ipr::Expr &)',
          lambda p: 'nullptr_cst' in p.get('result', '') and '&P0 == &ipr::impl::(anon)::nullptr_cst' in p['when']),
     ]
+    import c07
+    def const_base(v):
+        t = v
+        while isinstance(t, tuple) and t and t[0] in ('addr', 'deref', 'fld', 'elem', 'index', 'castto'):
+            t = t[2] if t[0] == 'castto' else t[1]
+        return t[1] if isinstance(t, tuple) and t[:1] == ('global',) else None
+
+    def equality_of(c, b):
+        """(x, y) when the outcome b of condition c says x equals y"""
+        if isinstance(c, tuple) and c[:1] == ('op',) and len(c) == 4 and ((c[1] == '==' and b) or (c[1] == '!=' and not b)):
+            return c[2], c[3]
+        if isinstance(c, tuple) and c[:1] == ('call',) and len(c[3]) == 2:
+            nm = contracts.fn_simple(c[1])
+            if (nm.startswith('operator==') and b) or (nm.startswith('operator!=') and not b):
+                return c[3][0], c[3][1]
+        return None
+
+    SPELLED = {   # route -> (constant returned, the spelling that must select it)
+        'get_linkage(String)': ('c_link', 'C'), 'get_linkage(String)/C++': ('cxx_link', 'C++'),
+        'get_linkage(word)': ('c_link', 'C'), 'get_label(Identifier)': ('default_cst', 'default'),
+    }
     for name, fid, pred in routes:
         f = F.need_fn(fid)
+        if name in SPELLED:
+            # decided on the evaluated paths themselves: some path answers with the constant, and what decides that path is
+            # an equality of the argument with the constant's documented spelling (whichever way the test is written)
+            cst, sp = SPELLED[name]
+            try:
+                raw = [p for p in S.run(fid) if p[1] == 'return']
+            except Unsupported as e:
+                raise AnalysisBroken(f'{fid}: {e}')
+            good = False
+            seenc = []
+            for st, _k, v in raw:
+                if not (const_base(v) or '').endswith('::' + cst) or not st.conds:
+                    continue
+                eq = equality_of(*st.conds[-1])
+                seenc.append(contracts.render_conds(st.conds[-1:], st, {})[:80])
+                if eq and any(isinstance(x, tuple) and x[:1] == ('k',) and x[1] == tuple(sp.encode()) for side in eq for x in c07._subterms(side)) \
+                        and any(x == ('param', 0) for side in eq for x in c07._subterms(side)):
+                    good = True
+            ck.check(R5, name, good, f'{fid}: no path answers with {cst} on the strength of a comparison of the argument with the spelling '
+                     f'"{sp}" (paths that return it are decided by {seenc or "nothing"})', loc=f['loc'], fn=fid)
+            continue
         try:
             paths = contracts.factory_contract(F, f, S)
         except Unsupported as e:
@@ -226,6 +268,69 @@ def run(ck, F):
         ck.check(R5, name, bool(hits) and (not first_nodes or min(hits) < min(first_nodes)),
                  f'{fid}: no path returns the constant before a dynamic node is produced: '
                  f'{[(p["when"][:50], p.get("result") or p.get("class")) for p in paths]}', loc=f['loc'], fn=fid)
+    # the constant is tested for on the way to every other answer; and the route is the function the client's call selects
+    R5b = ck.rule('C13.constant-first', 'on each route, every path that answers with something other than a constant (a new node, an element '
+                  'found in one of the Lexicon\'s tables) has first evaluated, with a negative outcome, every test by which the route '
+                  'recognises a constant: no answer remembered or looked up earlier can stand in for the constant', floor=5)
+    R5c = ck.rule('C13.routes-visible', 'each route is what a call on the Lexicon selects: no class between the factory that defines it and '
+                  'impl::Lexicon declares a member of the same name without a using-declaration for the factory\'s overloads (such a member '
+                  'hides the overload that recognises the built-in spelling, and the call converts its argument and builds a look-alike)', floor=5)
+
+    def judge_route(f, label):
+        try:
+            ps = [p for p in S.run(f['id']) if p[1] == 'return']
+        except Unsupported as e:
+            raise AnalysisBroken(f'{f["id"]}: {e}')
+        tests = []
+        for st, _k, v in ps:
+            if const_base(v) is None:
+                continue
+            if st.conds and st.conds[-1] not in tests:
+                tests.append(st.conds[-1])      # what decided this answer, with its outcome
+        if not tests:
+            ck.fail(R5b, label, f'{f["id"]}: no path answers with a constant', loc=f['loc'], fn=f['id'])
+            return
+        bad = []
+        for st, _k, v in ps:
+            if const_base(v) is not None:
+                continue
+            for tcond, tval in tests:
+                neg = (tcond, not tval) in st.conds
+                # a search of a constant table: `no element satisfied the test` is the negative outcome of the element test
+                if not neg:
+                    tabs = {const_base(x) for x in c07._subterms(tcond) if isinstance(x, tuple) and x[:1] == ('elem',)} - {None}
+                    neg = any(b and isinstance(c, tuple) and c[:1] == ('noelem',) and const_base(c[1]) in tabs for c, b in st.conds)
+                if not neg:
+                    bad.append(f'answers `{contracts.render(v, st, {})[:70]}` when {contracts.render_conds(st.conds, st, {})[:110] or "called"} '
+                               f'without having tested `{contracts.render(tcond, st, {})[:90]}`')
+                    break
+        ck.check(R5b, label, not bad, f'{f["id"]}: ' + '; '.join(bad[:2]) + ': a spelling that denotes a constant can get this answer instead '
+                 'of the constant (a look-alike)', loc=f['loc'], fn=f['id'])
+
+    import c07
+    seen_routes = set()
+    for name, fid, _pred in routes:
+        if fid in seen_routes:
+            continue
+        seen_routes.add(fid)
+        f = F.need_fn(fid)
+        label = contracts.short(fid) if hasattr(contracts, 'short') else name
+        judge_route(f, label)
+        home = f.get('parent')
+        hidden = []
+        for cls in sorted(c for c in F.rec if c != home and F.derives_from(c, home)):
+            r = F.rec[cls]
+            mine = [m for m in r.get('methods', []) if m['name'] == f['name'] and not m.get('implicit')]
+            if not mine or any(u['name'] == f['name'] for u in r.get('usings', [])):
+                continue
+            same = [m for m in mine if m['params'] == [p['t'] for p in f['params']]]
+            if same and same[0]['id'] in F.fn and F.fn[same[0]['id']].get('body'):
+                judge_route(F.fn[same[0]['id']], label + ' as redeclared in ' + contracts.short(cls))
+                continue
+            hidden.append(f'{contracts.short(cls)} declares {[contracts.short(m["id"]) for m in mine]} and no using-declaration for {f["name"]}')
+        ck.check(R5c, label, not hidden, f'{fid} is hidden from a client that holds the derived object: ' + '; '.join(hidden) +
+                 ' -- the call selects the derived member (converting its argument), which never tests for the constant', loc=f['loc'], fn=fid)
+
     # spelling -> identifier: a reserved spelling (every built-in type and symbolic constant is named by one) never reaches the
     # insertion of a dynamic Identifier; the routes identifier -> as-type / label above compare by identity with the constants'
     # names, so a look-alike Identifier yields a look-alike type or label
